@@ -41,9 +41,9 @@ CHECKS = {
         "are compared with the model and with the least closed set.",
    note=NOTE_LOC, technique="Lean 4 proof over a hand-written model + differential correspondence check (impl / model / closure spec)", ref="5 (C08)"),
  "C09": dict(
-   text="Lean theorems (Props/C09.lean) about Systems of locations: frame property, fuel sufficiency of the ancestor walk with path-based loop detection, loops reported, visits exactly the ancestors. " + TIE_LOC +
+   text="Lean theorems (Props/C09.lean) about Systems of locations: frame property, fuel sufficiency of the ancestor walk with path-based loop detection, loops reported, visits exactly the ancestors, each ancestor counted once however many chains of parents lead to it (each_ancestor_once; the diamond defect was repaired in /repo). " + TIE_LOC +
         "Forests of 2-5 locations with changing parent lists (self/indirect loops, missing parents), histories spread over them, every location observed through inherited searches, queries and events; "
-        "snapshots of all locations around each operation check the frame property directly.",
+        "snapshots of all locations around each operation check the frame property directly; the same histories through sys.System under the three cache TTLs.",
    note=NOTE_LOC, technique="Lean 4 proof over a hand-written model + differential correspondence check", ref="5 (C09)"),
  "C10": dict(
    text="Lean theorems (Props/C10.lean) about the rule lifecycle in the Location model (flag is a property fact that dies with the rule, re-add replaces, every method reports a disabled location; guard table regenerated from location.go). " + TIE_LOC +
@@ -58,9 +58,10 @@ CHECKS = {
    technique="Lean 4 proof (schedule induction from a frame hypothesis) + global-write table regenerated from the Go source + concurrent differential runs under the race detector", ref="5 (C11)"),
  "C12": dict(
    text="Lean 4 theorems (Props/C12.lean, 11): sections of one reader/writer lock are atomic for all programs keeping the discipline, all thread counts and schedules; the lock-discipline table regenerated from core/state_*.go and core/events.go "
-        "keeps the discipline except the enumerated known sites (kernel-decided); the fragment avoiding them is linearizable on memory; memory = storage for single-writer ids; a witness schedule per exception class. "
+        "keeps the discipline except the enumerated known sites (kernel-decided); the fragment avoiding them is linearizable on memory; memory = storage whenever no writer is inside its section, for any number of writers of an id "
+        "(memory_store_agree: invariant over all schedules; the storage calls were moved into the locked sections by a repair of /repo) and for single-writer ids regardless of the lock; a witness schedule per remaining exception class. "
         "The real code runs under the race detector with forced and random schedules, with exhaustive linearizability search of small histories against the Lean location model.",
-   note="Partial: FindCachedRules, expiry and two-writer memory/storage agreement are refuted (known findings); composite requests (ProcessEvent, RemRule, EnableRule) are not proved atomic and their non-linearizable histories are accepted "
+   note="Partial: FindCachedRules and expiry are refuted (known findings); composite requests (ProcessEvent, RemRule, EnableRule) are not proved atomic and their non-linearizable histories are accepted "
         "as a known class; races, crashes and deadlock are only observed. Trusted: the syntactic extractor, the Go race detector and runtime, the flattening of control flow into access lists.",
    technique="Lean 4 proof (refinement to an atomic-section machine) + lock-discipline table regenerated from the Go source + race-detector stress + linearizability checking", ref="5 (C12)"),
  "C13": dict(
